@@ -13,7 +13,7 @@ import (
 func init() {
 	register("C16", &propDef{
 		Title: "Pack output depends only on the tree and the options",
-		Rules: []func(*Checker){ruleC16Globals, rulePackerWriters("C16.packer"), ruleC16ProcState, ruleC16Readlink, ruleC16Nondet},
+		Rules: []func(*Checker){ruleC16Globals, rulePackerWriters("C16.packer"), ruleC16ProcState, ruleC16Readlink, ruleC16Nondet, ruleC16CleanRoot},
 		NotDecided: []string{
 			"equality of outputs across spellings of the source path (dot segments, trailing slash) — path algebra of filepath.Abs/Rel",
 			"the order in which filepath.Walk visits entries (library: lexical)",
@@ -457,4 +457,37 @@ func ruleC16Readlink(c *Checker) {
 			c.check(!hit, R, p.FuncName(fn), "Readlink target", pos, detail, "a possibly-relative link target reaches a filesystem call / filepath.Abs without being joined onto the link's directory: it is resolved against the working directory")
 		}
 	}
+}
+
+// ruleC16CleanRoot: every spelling of the source directory is normalised.
+func ruleC16CleanRoot(c *Checker) {
+	const R = "C16.cleanroot"
+	c.rule(R, "The source root Pack walks, hands to the walk callback and (through it) to the link validator is the result of filepath.Abs on every path (Abs also cleans), and the link validator compares against a root that is itself the result of filepath.Abs / Clean: otherwise equivalent spellings of one directory (dot segments, doubled slashes, trailing slash) give different slugs.", 2)
+	p := c.P
+	pack := p.Fn("slug", "Packer.Pack")
+	if pack == nil {
+		c.anchorMissing(R, "(*Packer).Pack")
+		return
+	}
+	n := 0
+	for _, ci := range callsIn(pack) {
+		cl, ok := ci.(*ssa.Call)
+		if !ok {
+			continue
+		}
+		o := calleeObj(cl)
+		if isFunc(o, "path/filepath", "Walk") || isFunc(o, "path/filepath", "WalkDir") {
+			n++
+			c.check(cleanedValue(cl.Call.Args[0], map[ssa.Value]bool{}), R, p.FuncName(pack), "walk root is absolute and clean", p.Pos(cl.Pos()), "filepath.Abs result on every path", "the walk root is not normalised on every path (filepath.Abs skipped for some spellings): entry names and link classification then depend on how the source path was spelled")
+		}
+		if g := cl.Common().StaticCallee(); g != nil && p.InModule(g) && len(g.AnonFuncs) > 0 {
+			for i, a := range cl.Call.Args {
+				if isStringType(a.Type()) {
+					n++
+					c.check(cleanedValue(a, map[ssa.Value]bool{}), R, p.FuncName(pack), fmt.Sprintf("walker root argument %d is absolute and clean", i), p.Pos(cl.Pos()), "filepath.Abs result on every path", "a root handed to the walk callback is not normalised on every path")
+				}
+			}
+		}
+	}
+	c.check(n > 0, R, p.FuncName(pack), "walk present", p.Pos(pack.Pos()), "walk found", "Pack no longer walks the source tree")
 }
